@@ -122,7 +122,7 @@ class Encoder(object):
 GRID_IN = [(12.0, 12.0), (15.0, 15.0), (18.0, 13.0), (11.0, 19.0), (14.5, 16.25), (42.0, 41.0),
            (45.0, 44.0)]
 GRID_OUT = [(5.0, 5.0), (30.0, 30.0), (25.0, 5.0), (2.0, 28.0), (60.0, 12.0), (33.5, 7.25),
-            (70.0, 70.0)]
+            (70.0, 70.0), (0.0, 15.0), (14.0, 0.0)]
 
 DEFAULT_REGIONS = [("R", "a", 10.0, 10.0, 20.0, 20.0), ("C", "b", 44.0, 43.0, 5.0)]
 
@@ -149,7 +149,8 @@ def classify(regions, x, y, margin=1e-3):
 
 DEFERRED_CFG = {"G4": "exclude", "M204": "merge", "M205": "merge", "M117": "last", "M73": "first",
                 "M106": "last", "M900": "merge"}
-CODES = ["M117 hello world", "M117 layer 2", "M204 P500", "M204 T700 P300", "M204 S1000",
+CODES = ["M117 hello world", "M117 layer 2", "M204 P500", "M204 T700 P300", "M204 S1000", "M205 X0 Y8",
+         "M204 P0 T0", "M900 K0", "M106 S0",
          "M205 X8 Y8", "M205 Z0.4", "M73 P5", "M73 P7 R20", "G4 P10", "M104 S200", "M106 S128",
          "M106 S255", "M107", "M900 K0.2", "M900 K0.5 L1", "T0", "M400", "G4 S1", "M84"]
 
@@ -262,6 +263,8 @@ def gen_episode_path(r, regions, opts):
             nx, ny = r.choice(pool)
             nx += r.choice([0, 0.5, -0.25])
             ny += r.choice([0, 0.5, -0.25])
+            if opts.get("tiny") and pool is GRID_OUT and r.random() < 0.3:
+                nx, ny = r.choice([(-0.00002, 25.0), (26.0, -0.00003), (-0.000015, -0.00004)])
             if classify(allr, nx, ny) != "edge":
                 break
         else:
@@ -297,7 +300,7 @@ def gen_episode_path(r, regions, opts):
         elif k < 0.72:
             ops.append(("code", r.choice(CODES)))
         elif k < 0.77 and opts.get("g92e") and not opts.get("fw"):
-            ops.append(("g92e", r.choice([0.0, 0.0, 2.5])))
+            ops.append(("g92e", r.choice([0.0, 0.0, 2.5] + ([-0.00003, -0.00002] if opts.get("tiny") else []))))
         elif k < 0.82 and not st["retracted"] and not opts.get("fw"):
             ops.append(("eonly", r.choice([0.5, 2.0])))
         elif k < 0.86:
